@@ -47,8 +47,11 @@ ASSUMPTIONS = [
     "only forms derivable from the documented grammar plus '(mixture)@density' and '( quantity )count' (used by the "
     "property text and the test-suite) are generated; a unit is always followed by white space; mass/volume units "
     "are not mixed with lengths; the 13 alternative spellings of wt%/vol% in the code are not documented and not generated",
-    "cases the documentation leaves open are skipped and counted: zero quantity of a material whose density is "
-    "unknown, percentages whose exact remainder is in (0, 1e-6) or exactly 0 with non-integer percentages "
+    "'components with zero quantity vanish' is read as: a zero quantity of a material of unknown density changes "
+    "nothing (atoms, density, no error by volume); besides the reference, results with zero quantities are compared "
+    "with the same call / string without those components (rel 1e-12)",
+    "cases the documentation leaves open are skipped and counted: a zero quantity in a VOLUME unit (mL ...) of a "
+    "material whose density is unknown (the documentation requires the density for materials given by volume), percentages whose exact remainder is in (0, 1e-6) or exactly 0 with non-integer percentages "
     "(float rounding of '100 - sum' decides), a repeated group whose quantities are all zero; a list of absolute "
     "quantities that are all zero is not generated (the first is made 1)",
     "tolerance: rel 1e-11 on normalised counts and density, plus 4*n*100*2^-52/remainder for every percentage "
@@ -321,14 +324,17 @@ class Ref(object):
                 rho = rho / rc.natural_ratio(self.T, comp, self.em)
         return comp, rho
 
+    # "components with zero quantity vanish": a zero quantity of a material
+    # whose density is unknown changes nothing (the reference drops zero
+    # quantities before it looks at any density)
     def _mixw(self, parts):
         if any(q == 0 and r is None for _, r, q in parts):
-            self.ambiguous.append("zero quantity of unknown density")
+            self.cls.add("zero-quantity-of-unknown-density")
         return rc.mix_weight(self.T, parts, self.em)
 
     def _mixv(self, parts):
         if any(q == 0 and r is None for _, r, q in parts):
-            self.ambiguous.append("zero quantity of unknown density")
+            self.cls.add("zero-quantity-of-unknown-density")
         try:
             return rc.mix_volume(self.T, parts, self.em)
         except rc.NeedDensity:
@@ -615,6 +621,74 @@ def reject_feature(m, s, exc=None):
 
 
 # ----------------------------------------------------------------------
+# metamorphic: the same mixture without its zero-quantity components
+class NoStrip(Exception):
+    pass
+
+
+def strip_zero(m):
+    """The tree without its zero-quantity components (recursively); raises
+    NoStrip when what is left is not a mixture of the grammar any more."""
+    def part(p):
+        if p[0] == "c":
+            return p
+        return ["g", strip_zero(p[1]), p[2], p[3]]
+
+    def its(items, seps):
+        out, so = [], []
+        for k, it in enumerate(items):
+            if it[0] == "u":
+                if Fraction(float(it[1])) == 0:
+                    continue
+                new = ["u", it[1], it[2], it[3], part(it[4])]
+            else:
+                a, b = its(it[1], it[2])
+                new = ["r", a, b, it[3], it[4]]
+            if out:
+                so.append(seps[k - 1] if k else " // ")
+            out.append(new)
+        if not out:
+            raise NoStrip()
+        return out, so
+
+    if m[0] == "q":
+        a, b = its(m[2], m[3])
+        return ["q", m[1], a, b]
+    _, by, qs, parts, fmt, seps = m
+    vals = [Fraction(float(x)) for x in qs]
+    qs, parts, fmt = list(qs), [part(p) for p in parts], list(fmt)
+    if 100 - sum(vals) == 0:
+        # the last part gets nothing: the part before it becomes the base
+        parts.pop()
+        qs.pop()
+        fmt.pop()
+        vals.pop()
+    keep = [k for k in range(len(parts)) if k >= len(qs) or vals[k] != 0]
+    parts2 = [parts[k] for k in keep]
+    qs2 = [qs[k] for k in keep if k < len(qs)]
+    fmt2 = [fmt[k] for k in keep if k < len(qs)]
+    if len(parts2) < 2 or len(qs2) != len(parts2) - 1:
+        raise NoStrip()
+    return ["p", by, qs2, parts2, fmt2, [" // "] * (len(parts2) - 1)]
+
+
+def same_material(f, g, T, tag, what, case, extra=()):
+    """f (with zero-quantity components) and g (without) are the same material."""
+    a = rc.normalised(dict((atom_key(x), n) for x, n in f.atoms.items()))
+    b = rc.normalised(dict((atom_key(x), n) for x, n in g.atoms.items()))
+    if set(a) != set(b) or any(not close(a[k], b[k], 1e-12) for k in a):
+        raise Violation("c11:zero-quantity:%s:atoms" % tag, "%s: atoms %r without the zero-quantity components %r" % (what, a, b), case)
+    if (f.density is None) != (g.density is None) or (f.density is not None and not close(f.density, g.density, 1e-12)):
+        raise Violation("c11:zero-quantity:%s:density" % tag, "%s: density %r, without the zero-quantity components %r"
+                        % (what, f.density, g.density), case)
+    for attr in extra:
+        x, y = getattr(f, attr, None), getattr(g, attr, None)
+        if x is None or y is None or not close(x, y, 1e-12):
+            raise Violation("c11:zero-quantity:%s:%s" % (tag, attr), "%s: %s %r, without the zero-quantity components %r"
+                            % (what, attr, x, y), case)
+
+
+# ----------------------------------------------------------------------
 def check_string(ctx, value):
     E = env()
     m, which = value["mix"], value["table"]
@@ -658,6 +732,25 @@ def check_string(ctx, value):
         got = getattr(f, attr, None)
         if got is None or not close(float(got), float(total), 1e-12 + ref.slack):
             raise Violation("c11:%s:%s" % (kind, attr), "%r: %s is %r expected %.15g" % (s, attr, got, float(total)), case)
+
+    # the same string without its zero-quantity components
+    if "zero-quantity" in ref.cls or "remainder:0" in ref.cls:
+        try:
+            m2 = strip_zero(m)
+        except NoStrip:
+            m2 = None
+        if m2 is not None:
+            s2 = render_mix(m2)
+            ctx.count("metamorphic:without-zero-quantity")
+            try:
+                f2 = E["pt"].formula(s2, table=T)
+            except Exception as e:  # noqa
+                if lib_frame(e.__traceback__) is None:
+                    raise
+                raise Violation("c11:zero-quantity:string:%s" % type(e).__name__,
+                                "%r is accepted but %r (zero quantities removed) raised %s: %s" % (s, s2, type(e).__name__, e), case)
+            same_material(f, f2, T, "string", "%r vs %r" % (s, s2), case,
+                          extra=(["total_mass"] if m[:2] == ["q", "m"] else ["thickness"] if m[0] == "q" else []))
 
     # the corresponding API calls
     try:
@@ -712,7 +805,7 @@ def check_api(ctx, value):
     tol = 1e-11 + ref.slack
     fn = pt.mix_by_weight if by == "w" else pt.mix_by_volume
 
-    def make(scale):
+    def make(scale, raw=False):
         args = []
         for k, (p, how, q) in enumerate(zip(parts, value["as"], quant)):
             if how == "str" and (p[0] == "c" or p[2] is None):
@@ -726,6 +819,8 @@ def check_api(ctx, value):
                 c = scale[1] * c
                 c.density = d
             args += [c, q]
+        if raw:
+            return args
         kws = dict(kw)
         if which == "private" or value.get("pass_table"):
             kws["table"] = T
@@ -769,6 +864,20 @@ def check_api(ctx, value):
         compare(f, comp, want_rho, T, tol, tag, case)
         if "name" in kw and f.name != kw["name"]:
             raise Violation("c11:%s:name" % tag, "name %r expected %r" % (f.name, kw["name"]), case)
+        if scale is None and any(q == 0 for q in quant) and any(q > 0 for q in quant):
+            # the same call without its zero-quantity components
+            ctx.count("metamorphic:without-zero-quantity")
+            full = make(None, raw=True)
+            args2 = []
+            for k in range(len(parts)):
+                if quant[k] > 0:
+                    args2 += full[2 * k:2 * k + 2]
+            kws = dict(kw)
+            if which == "private" or value.get("pass_table"):
+                kws["table"] = T
+            g = fn(*args2, **kws)
+            same_material(f, g, T, "api", "mix_by_%s(%s) %r" % ("weight" if by == "w" else "volume",
+                                                                ", ".join("%s, %r" % (x, q) for x, q in zip(strings, quant)), kw), case)
 
 
 # ----------------------------------------------------------------------
@@ -990,6 +1099,35 @@ def task_unit_sweep(ctx):
                     ]
                     for m in shapes:
                         ctx.check(check_string, {"mix": m, "table": "private" if k % 3 == 0 else "public"})
+    # zero quantity of a material whose density is unknown (U): it vanishes, the density of the rest stays
+    U = ["c", _tree([("Na", 0, 0, None), ("Cl", 0, 0, None)])]
+    Z = ["0.", "0.0", ".0"]
+    zero_cases = []
+    for by in ("w", "v"):
+        zero_cases.append(["p", by, ["60", "40"], [B, Dn, U], [[False, False], [False, False]], [" // ", " // "]])
+        zero_cases.append(["p", by, ["0.0", "25"], [U, B, Dn], [[False, False], [True, True]], [" // ", "//"]])
+        zero_cases.append(["p", by, ["30", "0."], [B, U, Dn], [[True, False], [False, False]], [" // ", " // "]])
+        inner = ["g", ["p", "w", ["60", "40"], [B, Dn, U], [[False, False], [False, False]], [" // ", " // "]], None, ["", ""]]
+        zero_cases.append(["p", by, ["20"], [inner, A], [[False, False]], [" // "]])
+        zero_cases.append(["q", "m", [["u", "2", "mL", False, inner], ["u", "3", "g", True, A]], [" // "]])
+        zero_cases.append(["q", "l", [["u", "2", "nm", False, inner], ["u", "3", "um", True, A], ["u", Z[0], "nm", False, U]], [" // ", " // "]])
+    for j, z in enumerate(Z):
+        zero_cases.append(["q", "m", [["u", "5", "g", False, B], ["u", z, ["g", "kg", "mg"][j], j == 1, U], ["u", "2", "mL", False, Dn]],
+                           [" // ", " // "]])
+        zero_cases.append(["q", "m", [["r", [["u", "5", "g", False, B], ["u", z, "ng", False, U]], [" // "], "3", ["", ""]],
+                                      ["u", "2", "g", False, Dn]], [" // "]])
+        zero_cases.append(["q", "l", [["u", z, "nm", False, U], ["u", "5", "nm", False, B], ["u", "2", "mm", True, Dn]], [" // ", " // "]])
+    for m in zero_cases:
+        for which in ("public", "private"):
+            ctx.check(check_string, {"mix": m, "table": which})
+    for by in ("w", "v"):
+        for how in ("str", "obj"):
+            for qz in (["3", "2", "0"], ["0", "3", "2"], ["3", "0.0", "2"]):
+                ps = [B, Dn, U]
+                ps = [ps[k] for k in ([0, 1, 2] if qz[2] in ("0",) else [2, 0, 1] if qz[0] == "0" else [0, 2, 1])]
+                for kw in ({}, {"name": "series"}):
+                    ctx.check(check_api, {"by": by, "parts": ps, "q": qz, "as": [how] * 3, "kw": kw, "table": "public",
+                                          "pass_table": False, "scale": [1, 2]})
     # percentages: above 100 (must be refused), exactly 100 (last part vanishes), ordinary
     for by in ("w", "v"):
         for qs in (["60", "50"], ["100.5"], ["99.5", ".6"], ["70", "30"], ["100"], ["10", "15"], ["0.0", "40"]):
